@@ -428,7 +428,6 @@ func c03Width(p *Prog, rp *Report) {
 	}
 }
 
-
 // versionFamily: strings built from every combination of epoch part, upstream
 // part and revision part shapes, with and without surrounding white space.
 func versionFamily() []string {
@@ -593,9 +592,9 @@ func c03Table(p *Prog, rp *Report, parser *ssa.Function) {
 	}
 	probes = append(probes, "é", "٣", "１", "ü", "\u00a0", "\u2028")
 	for _, part := range []struct {
-		name   string
-		mk     func(c string) string
-		in     func(rune) bool
+		name string
+		mk   func(c string) string
+		in   func(rune) bool
 	}{
 		{"upstream", func(c string) string { return "1" + c + "2" }, inUpstreamAlphabet},
 		{"revision", func(c string) string { return "1-3" + c + "4" }, inRevisionAlphabet},
